@@ -289,7 +289,6 @@ VARIANTS = [
     V("seed-C13-m3-tail-takes-first", [("@patch", "seeded/C13-m3/patch.diff")], {"C13": "ENDS:check::expr_get_tail:Sequence"}),
     V("skips-rename-locals-benign", [("src/check.rs", "let mut visited: UstrSet = Default::default();\n    let mut result: Vec<Ustr> = Default::default();", "let mut seen_vertices: UstrSet = Default::default();\n    let mut result: Vec<Ustr> = Default::default();"), ("src/check.rs", "&mut visited,\n            &mut result,\n        )?;\n        path.clear();\n        result.push(vertex);", "&mut seen_vertices,\n            &mut result,\n        )?;\n        path.clear();\n        result.push(vertex);"), ("src/check.rs", "debug_assert!(!visited.contains(&vertex));", "debug_assert!(!seen_vertices.contains(&vertex));"), ("src/check.rs", "        if visited.contains(vertex) {\n            continue;\n        }\n        path.push((\n            *vertex,", "        if seen_vertices.contains(vertex) {\n            continue;\n        }\n        path.push((\n            *vertex,"), ("src/check.rs", "&mut visited,\n            &mut result,\n        )?;\n        path.clear();\n        result.push(*vertex);", "&mut seen_vertices,\n            &mut result,\n        )?;\n        path.clear();\n        result.push(*vertex);")], {"C08": None, "C06": None}),
     V("seed-C02-m3-level-written-in-place", [("@patch", "seeded/C02-m3/patch.diff")], {"C02": "ARENA-IMMUT:check::do_propagate_fallback_levels"}),
-    V("c03-splitter-abandoned-after-self-split", [("src/dfa.rs", "    while let Some(group_id) = worklist.iter().next() {\n        let group_id = *group_id;\n        worklist.remove(&group_id);\n        let group = pool.lookup(group_id).unwrap();", "    'next_splitter: while let Some(group_id) = worklist.iter().next() {\n        let group_id = *group_id;\n        worklist.remove(&group_id);\n        let group = pool.lookup(group_id).unwrap();"), ("src/dfa.rs", "                if group_id == intern_id {\n                    break;\n                }", "                if group_id == intern_id {\n                    continue 'next_splitter;\n                }")], {"C03": "SKIPS:dfa::do_minimize:continue^2"}),
     V("c03-only-larger-half-requeued", [("src/dfa.rs", "} else if num_states_to_remove <= num_remaining_states {", "} else if num_states_to_remove > num_remaining_states + 1 {")], {"C03": "SKIPS:dfa::do_minimize:guard"}),
     V("c03-trim-keeps-orphans", [("src/dfa.rs", "            if transition.from == starting_state {\n                return true;\n            }\n            if !states_with_input_transition.contains(transition.from)\n                || !states_with_input_transition.contains(transition.to)", "            if transition.from == starting_state {\n                return true;\n            }\n            if !states_with_input_transition.contains(transition.from)\n                && !states_with_input_transition.contains(transition.to)")], {"C03": "SKIPS:dfa::keep_only_states_with_input_transitions"}),
     V("c02-followpos-stops-early", [("src/regex.rs", "                    if !right.nullable(arena) {", "                    if right.nullable(arena) {")], {"C02": "SKIPS:regex::do_followpos"}),
